@@ -140,6 +140,26 @@ def install_ethnum(e):
     @reg(r'U256::as_u128$')
     def _(e_, c, a, p): yield p, I(T.mod(u(a[0]), P2(128)), 'u128')
 
+    @reg(r'<Result<u64, &str> as PartialEq>::(eq|ne)$')
+    def _(e_, c, a, p):
+        x, y = e_.deref(a[0]), e_.deref(a[1])
+        def promoted_err(v):
+            # a promoted `&Err(CONST)` operand arrives as an opaque constant: read the constant's name from the promoted body in the dump
+            if isinstance(v, E): return v
+            name = v.data if isinstance(v, Opaque) else None
+            m = re.search(r'const [\w:]*promoted\[\d+\]: &Result<u64, &str> = \{.*?_3 = const ([\w:]+);.*?Result::<u64, &str>::Err', e_.mir.txt, re.S)
+            if not m: raise NotImplementedError('promoted Result constant')
+            return E('Err', [Opaque('const', m.group(1))])
+        x, y = promoted_err(x), promoted_err(y)
+        def tagof(v):
+            if v.var == 'Ok': return None
+            er = v.fields[0]
+            return er.data if isinstance(er, Opaque) else (er.var if isinstance(er, E) else str(er))
+        if x.var != y.var: r = FALSE
+        elif x.var == 'Ok': r = T.cmp('=', x.fields[0].t, y.fields[0].t)
+        else: r = TRUE if str(tagof(x)).split('::')[-1] == str(tagof(y)).split('::')[-1] else FALSE
+        yield p, B(r if c.endswith('::eq') else T.not_(r))
+
     @reg(r'Result::<.*>::map_err::<')
     def _(e_, c, a, p):
         r = a[0]
@@ -534,6 +554,46 @@ def manager_task(ctx):
     ctx.discharge(obls)
 
 
+def step_task(exact_in, a_to_b):
+    """SDK compute_swap_step vs program compute_swap on the same step inputs: same amounts, next price and fee wherever the program succeeds; SDK fails only where the
+    program fails (or where input + fee exceeds u64, which the program's loop rejects). Program leaves run against their proved specs, SDK leaves from their own MIR."""
+    def task(ctx):
+        from props import c02
+        w = FeeWorld(ctx)
+        c02.install_summaries(w.e)
+        rem = T.var('rem', 0, 2**64 - 1); fee = T.var('fee', 0, 100000); L = T.var('L', 0, 2**128 - 1)
+        cur = T.var('cur', MINP, MAXP); tgt = T.var('tgt', MINP, MAXP)
+        pre = [T.cmp('<=', tgt, cur) if a_to_b else T.cmp('>=', tgt, cur)]
+        fi, fa = (TRUE if exact_in else FALSE), (TRUE if a_to_b else FALSE)
+        def mk(sdk):
+            if sdk: return [I(rem, 'u64'), I(fee, 'u32'), I(L, 'u128'), I(cur, 'u128'), I(tgt, 'u128'), B(fa), B(fi)]
+            return [I(rem, 'u64'), I(fee, 'u32'), I(L, 'u128'), I(cur, 'u128'), I(tgt, 'u128'), B(fi), B(fa)]
+        tag = f"step:{'in' if exact_in else 'out'}:{'a2b' if a_to_b else 'b2a'}"
+        obls = []
+        n = 0
+        w.pre = []
+        for pp, pr in w.e.run('swap_math::compute_swap', mk(False), Path(pre)):
+            if isinstance(pr, Panic) or (isinstance(pr, E) and pr.var == 'Err'): continue      # only successful program computations are constrained
+            pv = pr.fields[0]
+            pvals = [pv.get(k).t for k in ('amount_in', 'amount_out', 'next_price', 'fee_amount')]
+            for sp, sr in w.es.run('compute_swap_step', mk(True), pp):
+                key = f'sdk:{tag}:pair{n}'; n += 1
+                if isinstance(sr, Panic) or (isinstance(sr, E) and sr.var == 'Err'):
+                    # tolerated only when input + fee does not fit u64 (program loop: AmountCalcOverflow)
+                    o = M.Obligation(key + ':sdk_fails_only_on_u64_overflow_of_input_plus_fee', sp.pc, T.cmp('>', T.add(pvals[0], pvals[3]), C(2**64 - 1)),
+                                     note=f'SDK outcome {sdk_kind(sr)[0]}'); o.replay = None; obls.append(o); continue
+                sv = sr.fields[0]
+                svals = [x.t for x in (list(sv.fields.values()) if isinstance(sv.fields, dict) else sv.fields)]
+                if len(svals) != 4:
+                    o = M.Obligation(key + ':same_shape', sp.pc, FALSE); o.replay = None; obls.append(o); continue
+                g = T.and_(*[T.cmp('=', a, b_) for a, b_ in zip(pvals, svals)])
+                o = M.Obligation(key + ':same_step', sp.pc, g, hints=w.pf.side, note='amount_in, amount_out, next price, fee equal'); o.replay = None; obls.append(o)
+        ctx.extra[tag] = {'pairs': n}
+        ctx.functions.update(w.e.executed); ctx.functions.update('sdk ' + x for x in w.es.executed)
+        ctx.discharge(obls, cap=ctx.cap(60, 300))
+    return task
+
+
 def tasks():
     def delta_args(fb):
         p0 = T.var('p0', MINP, MAXP); p1 = T.var('p1', MINP, MAXP); L = T.var('L', 0, 2**128 - 1)
@@ -549,7 +609,7 @@ def tasks():
         ('sdk:tick', tick_task),
         ('sdk:fees', fees_task),
         ('sdk:fee_manager', manager_task),
-    ]
+    ] + [(f"sdk:step:{'in' if ei else 'out'}:{'a2b' if ab else 'b2a'}", step_task(ei, ab)) for ei in (True, False) for ab in (True, False)]
 
 
 def run(ctx):
